@@ -2,6 +2,8 @@
 // ahead ends near that time - for dispatch_semaphore_wait, dispatch_group_wait and dispatch_block_wait, with the time expressed on
 // each of the three clocks (uptime: DISPATCH_TIME_NOW base; monotonic: DISPATCH_MONOTONICTIME_NOW base; wall: dispatch_walltime).
 // A wait that has not returned after 3 s is reported (the process then exits: the waiter cannot be recovered).
+// A second thread sends SIGUSR1 (handler installed without SA_RESTART) to the waiting thread every few milliseconds: an interrupted
+// sleep is not an elapsed time-out.
 // usage: c12_waits <seed>
 #define _GNU_SOURCE
 #include <dispatch/dispatch.h>
@@ -12,6 +14,8 @@
 #include <pthread.h>
 #include <stdatomic.h>
 #include <time.h>
+#include <signal.h>
+#include <string.h>
 #define MONO_NOW 0x8000000000000000ull
 static uint64_t now_ns(void){ struct timespec ts; clock_gettime(CLOCK_MONOTONIC,&ts); return (uint64_t)ts.tv_sec*1000000000ull+(uint64_t)ts.tv_nsec; }
 static const char *CL[3]={"uptime","monotonic","wall"}, *API[3]={"dispatch_semaphore_wait","dispatch_group_wait","dispatch_block_wait"};
@@ -19,7 +23,10 @@ static dispatch_time_t on_clock(int c, int64_t d){ return c==0?dispatch_time(DIS
 static atomic_int cur_api, cur_clock, cur_past, waiting; static atomic_long started_ms; static uint64_t seed;
 static void *watchdog(void *a){ (void)a; for(;;){ usleep(50000); if(atomic_load(&waiting) && (long)(now_ns()/1000000)-atomic_load(&started_ms) > 3000){
   printf("ORACLE VIOL seed=%llu %s until a time on the %s clock that %s did not return within 3 s\n",(unsigned long long)seed,API[cur_api],CL[cur_clock],cur_past?"is already past":"lies 40 ms ahead"); fflush(stdout); _exit(1); } } return 0; }
-int main(int argc,char**argv){ seed=argc>1?strtoull(argv[1],0,0):1; uint64_t r=seed*0x9e3779b97f4a7c15ull; pthread_t wd; pthread_create(&wd,0,watchdog,0); long n=0; int viol=0; char msg[300]="";
+static void on_usr1(int sig){ (void)sig; }
+static pthread_t main_th; static atomic_int ping_stop; static atomic_long pings;
+static void *pinger(void *a){ (void)a; while(!atomic_load(&ping_stop)){ pthread_kill(main_th,SIGUSR1); atomic_fetch_add(&pings,1); usleep(2500); } return 0; }
+int main(int argc,char**argv){ seed=argc>1?strtoull(argv[1],0,0):1; struct sigaction sa; memset(&sa,0,sizeof sa); sa.sa_handler=on_usr1; sigaction(SIGUSR1,&sa,0); main_th=pthread_self(); pthread_t pg; pthread_create(&pg,0,pinger,0); uint64_t r=seed*0x9e3779b97f4a7c15ull; pthread_t wd; pthread_create(&wd,0,watchdog,0); long n=0; int viol=0; char msg[300]="";
   dispatch_semaphore_t s=dispatch_semaphore_create(0); dispatch_group_t g=dispatch_group_create(); dispatch_group_enter(g);
   dispatch_queue_t q=dispatch_queue_create("c12w",NULL); dispatch_suspend(q); dispatch_block_t b=dispatch_block_create(0,^{}); dispatch_async(q,b);   // never runs while suspended
   for(int round=0; round<4 && !viol; round++) for(int api=0; api<3 && !viol; api++) for(int c=0;c<3 && !viol;c++) for(int past=1; past>=0 && !viol; past--){
@@ -32,5 +39,6 @@ int main(int argc,char**argv){ seed=argc>1?strtoull(argv[1],0,0):1; uint64_t r=s
     if(rc==0){ viol=1; snprintf(msg,sizeof msg,"%s returned 0 although nothing was signalled: clock %s",API[api],CL[c]); }
     else if(past && el>500000000ull){ viol=1; snprintf(msg,sizeof msg,"%s until a time on the %s clock that is already past blocked for %llu ms",API[api],CL[c],(unsigned long long)(el/1000000)); }
     else if(!past && el<40000000ull-2000000ull && c!=2){ viol=1; snprintf(msg,sizeof msg,"%s returned non-zero %llu us before a deadline 40 ms ahead on the %s clock",API[api],(unsigned long long)((40000000ull-el)/1000),CL[c]); } }
+  atomic_store(&ping_stop,1); pthread_join(pg,0);
   if(viol){ printf("ORACLE VIOL seed=%llu %s\n",(unsigned long long)seed,msg); fflush(stdout); _exit(1); }
-  printf("ORACLE ok items=%ld\n",n); fflush(stdout); _exit(0); }
+  printf("ORACLE ok items=%ld signals=%ld\n",n,atomic_load(&pings)); fflush(stdout); _exit(0); }
